@@ -197,14 +197,21 @@ pub fn run(ctx: &Ctx) -> Result<(), String> {
         for _ in 0..2 {
             let o = crate::util::on_named_thread("worker-0", || -> Result<(u64, Vec<usize>, usize), String> {
                 let mut s = Srv::new(&cfg)?;
-                let r = run_burst(&mut s, &b, 0, &json!(null))?;
+                let r = run_burst(&mut s, &b, 0, &json!({"kind":"selftest-burst","batch_size":3,"note":"the same burst on two fresh Server objects of one process"}))?;
                 let mut bt = r.batches.clone();
                 bt.sort();
-                Ok((r.replies, bt, r.violations.len()))
+                let nv = r.violations.len();
+                // these two runs are executions like any other: what they violate is reported
+                for (clause, class, d) in r.violations {
+                    ctx.violation(&clause, "reply", &format!("{}/second-server-object-in-process", class), d);
+                }
+                Ok((r.replies, bt, nv))
             })?;
             obs.push(o);
         }
-        if obs[0] != obs[1] || obs[0].0 != 5 {
+        // a difference between two violation-free runs is the harness's nondeterminism; a difference
+        // that comes with violations is the subject's (state shared between Server objects)
+        if (obs[0] != obs[1] || obs[0].0 != 5) && obs[0].2 == 0 && obs[1].2 == 0 {
             return Err(format!("determinism self-test failed: {:?}", obs));
         }
     }
